@@ -43,7 +43,7 @@ impl RealTable {
             .iter()
             .map(|s| {
                 let id = if s.occupied { *self.ids.get(&s.addr).unwrap_or(&0) } else { 0 };
-                vec![s.occupied as u64, s.hash, s.psl as u64, id as u64]
+                vec![s.occupied as u64, s.hash & 0xffff_ffff, s.psl as u64, id as u64, s.hash >> 32]
             })
             .collect::<Vec<_>>())
     }
@@ -60,23 +60,38 @@ pub fn record_table(args: &Args) {
     let segs = args.num("segments", 20) as usize;
     let len = args.num("len", 60) as usize;
     let mut out = Out::new(&args.str("out", "-"));
+    let byhash_mode = args.str("byhash", "mixed");
     let mut rng = Rng::new(seed ^ 0x7ab1e);
     out.emit(json!({"ev": "init", "kind": "table", "seed": seed}));
     for _ in 0..segs {
-        let cap = *rng.pick(&[1usize, 2, 2, 3, 4, 4, 5, 8]);
-        let byhash = rng.chance(1, 3);
+        let byhash = match byhash_mode.as_str() {
+            "only" => true,
+            "never" => false,
+            _ => rng.chance(1, 3),
+        };
+        // hashes are 64-bit: hi * 2^32 + lo. With "wide" hashes different keys may agree on the low
+        // 32 bits only (a table that compares a truncated hash would confuse them); then capacities are
+        // powers of two so that the home slot depends on lo alone
+        let wide = rng.chance(1, 2);
+        let cap = if wide { *rng.pick(&[1usize, 2, 2, 4, 4, 8]) } else { *rng.pick(&[1usize, 2, 2, 3, 4, 4, 5, 8]) };
         let nkeys = rng.range(2, 12);
         let hrange = rng.range(1, 8) as u64;
-        let hfun: Vec<u64> = (0..nkeys).map(|_| rng.below(hrange as usize) as u64).collect();
-        out.emit(json!({"ev": "treset", "cap": cap, "byhash": byhash}));
+        let hfun: Vec<u64> = (0..nkeys)
+            .map(|_| {
+                let lo = rng.below(hrange as usize) as u64;
+                let hi = if wide { rng.below(3) as u64 } else { 0 };
+                (hi << 32) | lo
+            })
+            .collect();
+        out.emit(json!({"ev": "treset", "cap": cap, "byhash": byhash, "wide": wide}));
         let mut t = RealTable::new(cap);
         for _ in 0..len {
             if rng.chance(1, 7) {
-                let h = rng.below(hrange as usize) as u64;
+                let h = if rng.coin() { hfun[rng.below(nkeys)] } else { rng.below(hrange as usize) as u64 };
                 match t.gbh(h) {
-                    Ok(r) => out.emit(json!({"ev": "gbh", "h": h, "ret": r})),
+                    Ok(r) => out.emit(json!({"ev": "gbh", "h": [h >> 32, h & 0xffff_ffff], "ret": r})),
                     Err(m) => {
-                        out.emit(json!({"ev": "gbh", "h": h, "panic": m}));
+                        out.emit(json!({"ev": "gbh", "h": [h >> 32, h & 0xffff_ffff], "panic": m}));
                         break;
                     }
                 }
@@ -86,10 +101,10 @@ pub fn record_table(args: &Args) {
                 match t.goi(h, k as u64 + 1, byhash) {
                     Ok(r) => {
                         let s = t.slots();
-                        out.emit(json!({"ev": "goi", "h": h, "k": k + 1, "ret": r, "slots": s}))
+                        out.emit(json!({"ev": "goi", "h": [h >> 32, h & 0xffff_ffff], "k": k + 1, "ret": r, "slots": s}))
                     }
                     Err(m) => {
-                        out.emit(json!({"ev": "goi", "h": h, "k": k + 1, "panic": m}));
+                        out.emit(json!({"ev": "goi", "h": [h >> 32, h & 0xffff_ffff], "k": k + 1, "panic": m}));
                         break;
                     }
                 }
